@@ -223,6 +223,54 @@ func (w *World) reloadDerived() {
 	w.St.Reqs = nil
 }
 
+// reloadAliased: a log that holds one stored block as two entries - a replica was loaded from the
+// raw-codec identifier of a head (a block store answers by multihash) and merged back. An odd state, but
+// one the public API reaches, and its published heads must rebuild it like any other.
+func (w *World) reloadAliased() {
+	r := w.R
+	n := w.pickSource("alias-src")
+	pick := r.Choose("alias-head", 1<<16)
+	if n == nil || w.Codec != "cbor" || w.LinkKeyBytes != nil {
+		return
+	}
+	heads := w.M.Heads(n.Set)
+	h := w.Cids[heads[pick%len(heads)]]
+	rawCid := cid.NewCidV1(cid.Raw, h.Hash())
+	var b *ipfslog.IPFSLog
+	var err error
+	w.driven(func(ctx context.Context) {
+		b, err = ipfslog.NewFromEntryHash(ctx, w.St, n.W.ID, rawCid, w.loadOpts(), &ipfslog.FetchOptions{ProgressChan: w.curProgress})
+	})
+	if err != nil || b == nil {
+		r.Logf("aliased: loading n%d from the raw-codec identifier of a head failed: %v", n.Idx, err)
+		return
+	}
+	a := w.clone(n, true)
+	if _, err := a.Join(b, -1); err != nil {
+		r.Logf("aliased: merge refused: %v", err)
+		return
+	}
+	if a.Len() == len(n.Set) {
+		return // nothing was added: no alias in the log
+	}
+	r.Probe("log-holding-one-block-under-two-identifiers")
+	in := &loadInputs{set: hashSet(a.GetEntries())}
+	c, err := a.ToMultihash(w.ctx)
+	if err != nil {
+		r.Violate("C09:publish-error", "ToMultihash on a non-empty log failed: %v", err)
+	}
+	in.manifest, in.json, in.heads = c, a.ToJSONLog(), a.Heads().Slice()
+	sp := loadSpec{loader: []int{ldManifest, ldJSON, ldEntries}[r.Choose("alias-loader", 3)], conc: w.pickConc(), bias: r.Choose("bias", 3)}
+	l2, err, _ := w.load(in, sp, Writers()[4])
+	if err != nil {
+		r.Violate("C09:load-error", "%s of a stored log failed with no fault injected: %v", loaderNames[sp.loader], err)
+	}
+	if d := w.sameObs(w.observe(a), w.observe(l2), false); d != "" {
+		r.Violate("C09:equal", "log rebuilt by %s from a log that holds one block under two identifiers differs from it: %s", loaderNames[sp.loader], d)
+	}
+	w.St.Reqs = nil
+}
+
 func c09Profile() *Profile {
 	p := e0Profile("C09", "C09")
 	p.NoFaults = true
@@ -271,6 +319,9 @@ func RunC09(r *Run) {
 		}
 		if r.Choose("derived-log", 4) == 0 {
 			w.reloadDerived()
+		}
+		if r.Choose("aliased-entry", 5) == 0 {
+			w.reloadAliased()
 		}
 		// change some replica between two publications
 		switch r.Choose("between", 3) {
@@ -392,10 +443,13 @@ func RunC10(r *Run) {
 		}
 		var first []string
 		reps := 2 + r.Choose("reps", 2)
+		lim := limit // the caller keeps its limit in one variable and passes its address to every load
 		for rep := 0; rep < reps; rep++ {
-			lim := limit
 			sp := loadSpec{loader: ld, conc: w.pickConc(), bias: r.Choose("bias", 3), length: &lim}
 			l, err, d := w.load(in, sp, Writers()[4])
+			if lim != limit {
+				r.Violate("C10:caller-limit-modified", "%s rewrote the caller's length limit from %d to %d", loaderNames[ld], limit, lim)
+			}
 			if err != nil {
 				r.Violate("C10:load-error", "%s with length %d failed with no fault injected: %v", loaderNames[ld], limit, err)
 			}
